@@ -11,8 +11,8 @@ import (
 // uninterpreted function of the bytes otherwise.
 type md5Hash struct{ buf []byte }
 
-func MD5New() hash.Hash                      { return &md5Hash{} }
-func MD5Sum(data []byte) [16]byte            { return vsym.MD5(data) }
+func MD5New() hash.Hash                        { return &md5Hash{} }
+func MD5Sum(data []byte) [16]byte              { return vsym.MD5(data) }
 func (h *md5Hash) Write(p []byte) (int, error) { h.buf = append(h.buf, p...); return len(p), nil }
 func (h *md5Hash) Sum(b []byte) []byte {
 	s := vsym.MD5(h.buf)
